@@ -43,6 +43,8 @@ META = {
             "Every broadcast call the workload makes, including the accessors internal ones, is judged by a contract: operands bitwise unchanged, identical result indices, every result row equals the original value for its key, no original row lost.", "3 C13"),
     "C14": ("exploration", "runtime monitoring: conservation monitors (every cycle in exactly one class, totals under re-binning and combination) and identity/relation monitors on the real accessors",
             "Accounting identities, histogram totals against an own classification, marginal consistency, and conservation/identity/composition of re-binning on irregular and degenerate binnings.", "3 C14"),
+    "C15": ("exploration", "runtime monitoring: closed-form oracle (normal overlap integral) judged relatively, limit, monotonicity and convergence monitors",
+            "Every computed failure probability between 1e-12 and 1-1e-12 is compared relatively with the closed form; the arbitrary-density variant must converge under grid refinement.", "3 C15"),
     "C03": ("exploration", "runtime monitoring: metamorphic relation monitors between executions (refinement, negation, "
             "affine map, NaN insertion, Series index types), sanitizer replays",
             "Relations between pairs of real executions, each with its own counter; ties that rounding may flip are "
